@@ -149,7 +149,8 @@ class C09Engine(GenEngineBase):
 
         def one(item):
             k, r, dbg, raw = item
-            case = {"seed": 0, "history": [["ctx", "c0", r["target"]], ["trace", "r0", "c0", r["target"], r["func"], r["sig"]],
+            ctx_act = ["ctx", "c0", r["target"]] + ([r["params"], "ctor"] if r.get("params") else [])
+            case = {"seed": 0, "history": [ctx_act, ["trace", "r0", "c0", r["target"], r["func"], r["sig"]],
                                            ["expand", "r0"], ["simplify", "r0"], ["print", "r0", dbg, "cmp"]]}
             if raw:
                 case["history"][2:] = [["print", "r0", dbg, "cmp", "raw"]]
